@@ -105,6 +105,19 @@ func (in *inst) clientJSON(s step) []byte {
 			q = fmt.Sprintf("{b(x:%d)}", s.ID)
 		}
 		m["payload"] = map[string]any{"query": q}
+	case "start-badquery", "start-badpayload":
+		// a start whose operation cannot be created: it is answered with error (+ complete)
+		// under its id, which must not disturb a running operation with the same id
+		m["type"] = "start"
+		if tws {
+			m["type"] = "subscribe"
+		}
+		m["id"] = strconv.Itoa(s.ID)
+		if s.Kind == "start-badquery" {
+			m["payload"] = map[string]any{"query": "subscription{"}
+		} else {
+			m["payload"] = "not an object"
+		}
 	case "stop":
 		m["type"] = "stop"
 		if tws {
@@ -364,7 +377,9 @@ func (in *inst) Check(x *explore.Exec) (string, string) {
 		errored    bool
 		lastData   int
 		active     bool
+		failed     bool // the instance is a start that could not be executed: only error/complete may follow
 	}
+	pendingBad := map[string]int{} // id -> starts sent that cannot be executed and are not yet answered
 	ops := map[string]*opState{}
 	get := func(id string) *opState {
 		if ops[id] == nil {
@@ -419,12 +434,24 @@ func (in *inst) Check(x *explore.Exec) (string, string) {
 				}
 				*o = opState{instances: o.instances + 1, active: true}
 			}
+		case strings.HasPrefix(e, "client:start-badquery("), strings.HasPrefix(e, "client:start-badpayload("):
+			id := strings.TrimSuffix(e[strings.Index(e, "(")+1:], ")")
+			pendingBad[id]++
 		case strings.HasPrefix(e, "frame:CLOSE"), strings.HasPrefix(e, "closefunc:"):
 			closed = true
 		case strings.HasPrefix(e, "frame:data:"), strings.HasPrefix(e, "frame:next:"), strings.HasPrefix(e, "frame:error:"), strings.HasPrefix(e, "frame:complete:"):
 			parts := strings.SplitN(e, ":", 4)
 			kind, id := parts[1], parts[2]
 			o := get(id)
+			if o.terminated && pendingBad[id] > 0 && !(kind == "complete" && o.errored && o.completes == 0) {
+				// the previous instance has terminated and the client has sent another start with
+				// this id that cannot be executed: this frame opens the answer to that start
+				pendingBad[id]--
+				*o = opState{instances: o.instances + 1, failed: true}
+			}
+			if o.failed && (kind == "data" || kind == "next") {
+				return "ws:frame-after-complete", fmt.Sprintf("event %d %q: a result under id %s after that id was terminated by the answer to a start that cannot be executed\n  %s", i, e, id, all)
+			}
 			if o.completes > 0 {
 				return "ws:frame-after-complete", fmt.Sprintf("event %d %q after the completion of id %s\n  %s", i, e, id, all)
 			}
@@ -548,6 +575,14 @@ func scenarios(tier string) []*explore.Scenario {
 		// id re-use after the previous instance terminated by itself (end / error / panic)
 		for _, script := range []string{"emit-end", "emit-error", "panic"} {
 			add(scen{Proto: proto, Steps: []step{{Kind: "init"}, {Kind: "start", ID: 1}, {Kind: "await-terminated", ID: 1}, {Kind: "start", ID: 1}, {Kind: "await-terminated", ID: 1}}, Script: script, InitFunc: "none"}, &one)
+		}
+		// a start that fails before execution (unparsable query / payload) re-using the id of a running operation
+		for _, bad := range []string{"start-badquery", "start-badpayload"} {
+			for _, script := range []string{"block", "emit-end", "emit2-end"} {
+				add(scen{Proto: proto, Steps: []step{{Kind: "init"}, {Kind: "start", ID: 1}, {Kind: bad, ID: 1}}, Script: script, InitFunc: "none"}, &two)
+			}
+			add(scen{Proto: proto, Steps: []step{{Kind: "init"}, {Kind: bad, ID: 1}, {Kind: "start", ID: 1}}, Script: "emit-end", InitFunc: "none"}, &one)
+			add(scen{Proto: proto, Steps: []step{{Kind: "init"}, {Kind: "start", ID: 1}, {Kind: bad, ID: 2}}, Script: "emit-end", InitFunc: "none"}, &one)
 		}
 		// id re-use right after a stop: the first instance may still be tearing down
 		for _, script := range []string{"block", "emit-end"} {
